@@ -27,7 +27,7 @@ def run(ctx):
     q = ctx.quick()
     progs = PROGRAMS + [gen_program(ctx.rng) for _ in range(2 if q else 10)]
     deep = [("dfs", 5000 if q else 400000, 3)]
-    jobs = make_jobs(ctx, "bag", VARIANTS, progs) + make_jobs(ctx, "bag", VARIANTS, DEEP, strat=deep)
+    jobs = make_jobs(ctx, "bag", VARIANTS, progs, strat=[("dfs", 1000, 1), ("pct", 90, 0), ("random", 45, 0)] if q else None) + make_jobs(ctx, "bag", VARIANTS, DEEP, strat=deep)
     vlib.run_jobs(ctx, jobs)
     vlib.validate_histories(ctx, jobs, "LinBag", CONSTS)
     ctx.impl_runs.append({"driver": "bag", "variants": VARIANTS, "programs": progs + DEEP, "strategies": strategies(ctx)})
